@@ -3,8 +3,8 @@
      portage/depend/userEnteredAtoms.go   UserEnteredDependencies.Add
      cmd/stagemaker/paths.go              addAtomListToSystemSet
    over an abstract profile tree: directories with an optional `packages` and `parent` file
-   (as lists of lines) and symbolic links.  The kernel's path resolution (stat / lstat /
-   readlink) is an executable stand-in ([walk]); atom parsing is the dictionary [dict]
+   (as lists of lines) and symbolic links.  The kernel's path resolution (stat, and
+   filepath.EvalSymlinks which repeats it) is an executable stand-in ([walk]); atom parsing is the dictionary [dict]
    (string -> what depend.NewDependencyAtom returned).  Definitions only, no proofs. *)
 From LC Require Import Lib.Bytes Lib.Lex Lib.Fields Lib.PathM Model.Resolve.
 
@@ -26,33 +26,30 @@ Definition implicit_dir (p : bytes) : bool :=
 Definition render (comps : list bytes) : bytes := sl :: pjoin comps.
 
 (* path_walk of the kernel: components left to right, symbolic links expanded in place *)
-Fixpoint walk (fuel : nat) (follow_last : bool) (stack comps : list bytes) : option (list bytes) :=
+Fixpoint walk (fuel : nat) (stack comps : list bytes) : option (list bytes) :=
   match fuel with
   | O => None                      (* ELOOP *)
   | S f =>
     match comps with
     | [] => Some stack
     | c :: rest =>
-      if beq c [] || beq c dot then walk f follow_last stack rest
-      else if beq c dotdot then walk f follow_last (removelast stack) rest
+      if beq c [] || beq c dot then walk f stack rest
+      else if beq c dotdot then walk f (removelast stack) rest
       else
         let p := render (stack ++ [c]) in
         match lookup p with
         | Some (PLink t) =>
-          if isnil rest && negb follow_last then Some (stack ++ [c])
-          else if is_rooted t then walk f follow_last [] (psplit t ++ rest)
-          else walk f follow_last stack (psplit t ++ rest)
-        | Some (PDir _ _) => walk f follow_last (stack ++ [c]) rest
-        | None => if implicit_dir p then walk f follow_last (stack ++ [c]) rest else None
+          if is_rooted t then walk f [] (psplit t ++ rest)
+          else walk f stack (psplit t ++ rest)
+        | Some (PDir _ _) => walk f (stack ++ [c]) rest
+        | None => if implicit_dir p then walk f (stack ++ [c]) rest else None
         end
     end
   end.
 Definition walk_fuel : nat := 400.
-(* physical path of an existing object *)
+(* physical path of an existing object: what stat(2) resolves, filepath.EvalSymlinks returns *)
 Definition realpath (p : bytes) : option bytes :=
-  match walk walk_fuel true [] (psplit p) with Some st => Some (render st) | None => None end.
-Definition lrealpath (p : bytes) : option bytes :=
-  match walk walk_fuel false [] (psplit p) with Some st => Some (render st) | None => None end.
+  match walk walk_fuel [] (psplit p) with Some st => Some (render st) | None => None end.
 
 (* fs.IsDir (stat) *)
 Definition is_dir (p : bytes) : bool :=
@@ -65,13 +62,6 @@ Definition dir_node (p : bytes) : option pnode :=
   | Some q => match lookup q with Some (PDir a b) => Some (PDir a b) | _ => None end
   | None => None
   end.
-(* fs.IsSymlink (lstat) and fs.Readlink (256-byte buffer) *)
-Definition link_target (p : bytes) : option bytes :=
-  match lrealpath p with
-  | Some q => match lookup q with Some (PLink t) => Some (firstn 256 t) | _ => None end
-  | None => None
-  end.
-
 (* the lines of <dir>/packages and <dir>/parent when they are regular files *)
 Definition packages_of (dir : bytes) : option (list bytes) :=
   match dir_node dir with Some (PDir pk _) => pk | _ => None end.
@@ -134,14 +124,13 @@ Fixpoint read_dir (fuel : nat) (dir : bytes) (u : ued) : res ued :=
              | l :: r =>
                if isnil l then parents r ppath u
                else
-                 let pp :=
-                   match link_target fs ppath with
-                   | Some t => if is_rooted t then t else pathjoin2 (pathdir ppath) t
-                   | None => ppath
-                   end in
-                 match read_dir f (pathjoin2 pp l) u with
-                 | ROk u' => parents r pp u'
-                 | e => e
+                 match realpath fs ppath with         (* filepath.EvalSymlinks *)
+                 | None => RFailed
+                 | Some pp =>
+                   match read_dir f (pathjoin2 pp l) u with
+                   | ROk u' => parents r pp u'
+                   | e => e
+                   end
                  end
              end) ls dir u
         | None => ROk u
